@@ -6,9 +6,10 @@
    is said to cover (read off the comments of the listing files), that the translator reports every operation (python over
    clang's AST: trusted), and that the table of functions in tools/machine_ops.py names every function a listing inlines.
    Labels: [F] closed, by evaluation on the generated table; [F-rule] for all tables. *)
-From Coq Require Import List String Bool.
+From Coq Require Import List String Bool ZArith.
 Import ListNotations.
-Require Import CV.RowLegMachine CV.MachineOps CV.MachineOpsProofs CV.MachineOps_gen CV.MachineOpsCover.
+Require Import CV.RowLeg CV.RowLegProofs CV.RowLegMachine CV.RowLegPlacementMachine CV.RowLegPlacementMachineProofs.
+Require Import CV.MachineOps CV.MachineOpsProofs CV.MachineOps_gen CV.MachineOpsCover.
 
 (* [F] every signed-integer operation / value-changing conversion that the translator finds in the transcribed functions is
    matched, position for position, by exactly one cover entry with the same function, operator, result type, text and
@@ -31,6 +32,15 @@ Theorem c07_cover_rule_no_stale_entry : forall t c, ops_covered_b t c = true ->
   forall g, In g (cv_funs c) -> forall e, In e (cf_entries g) ->
   exists f o, In f t /\ In o (f_ops f) /\ f_name f = cf_name g /\ op_matches o e.
 Proof. exact ops_covered_no_stale. Qed.
+
+(* [F-rule] callee closure: every function of the repo that a function of the table calls is a function of the table or is named (with a
+   reason) in the cover's callees_not_inlined; and every name listed there is called and is not in the table *)
+Theorem c07_cover_rule_callees : forall t c, ops_covered_b t c = true -> calls_ok t c.
+Proof. exact ops_covered_calls. Qed.
+
+(* [F] for the tables of this tree *)
+Theorem c07_callees_in_table_or_listed : calls_ok machine_ops cover.
+Proof. exact (ops_covered_calls _ _ c07_listings_cover_every_signed_operation). Qed.
 
 (* the two specialised to the tables of this tree *)
 Theorem c07_every_operation_covered_or_excluded :
@@ -56,6 +66,17 @@ Example c07_cover_rejects_added_function : ops_covered_b (mut_add_fun machine_op
 Proof. vm_compute. reflexivity. Qed.
 Example c07_cover_rejects_removed_function : ops_covered_b (mut_drop_fun machine_ops) cover = false.
 Proof. vm_compute. reflexivity. Qed.
+(* a function of the table calls a new helper of the repo that is neither in the table nor in callees_not_inlined; an entry of
+   callees_not_inlined is dropped although the callee is still called; an entry that nothing calls; an entry naming a table function *)
+Example c07_cover_rejects_new_callee : ops_covered_b (mut_add_call machine_ops) cover = false.
+Proof. vm_compute. reflexivity. Qed.
+Example c07_cover_rejects_dropped_callee_entry : ops_covered_b machine_ops (mut_cover_drop_callee cover) = false.
+Proof. vm_compute. reflexivity. Qed.
+Example c07_cover_rejects_stale_callee_entry : ops_covered_b machine_ops (mut_cover_stale_callee cover) = false.
+Proof. vm_compute. reflexivity. Qed.
+Example c07_cover_rejects_callee_entry_of_table_function :
+  ops_covered_b machine_ops (mut_cover_callee_in_table machine_ops cover) = false.
+Proof. vm_compute. reflexivity. Qed.
 (* a cover entry that is left over, that claims the wrong listing type, a position the listing function does not have, or a
    listing function that does not exist *)
 Example c07_cover_rejects_stale_entry : ops_covered_b machine_ops (mut_cover_stale cover) = false.
@@ -72,7 +93,30 @@ Example c07_cover_nonvacuous :
    && Nat.ltb 0 (List.length machine_ops))%bool = true.
 Proof. vm_compute. reflexivity. Qed.
 
+(* ---------- listing added by the tie: RowLegalizer::getPlacement (RowLegPlacementMachine.v) *)
+Local Open Scope Z_scope.
+(* [F] every value of getPlacement (ret[i] = finalAbsPos[i] + cumWidth_[i] and the assert's finalAbsPos[i] + cumWidth_[i + 1]) fits int,
+   for every state satisfying the raw-state invariant of C12 (RowLegProofs.Inv: kept by every push / query from rl_init) on a segment
+   inside [-2^22, 2^22] *)
+Theorem c07_row_legalizer_placement_no_overflow : forall s,
+  Inv s -> -4194304 <= rbegin s -> rend s <= 4194304 -> Forall fits (gp_vals s).
+Proof. exact gp_no_overflow. Qed.
+(* [F] the listed sums are the model's placement x (first of each pair) and x + width (second) *)
+Theorem c07_row_legalizer_placement_vals_are_the_placement : forall cp ws u m,
+  map snd (gp_aux_vals cp ws u m) =
+  flat_map (fun xw => [fst xw; fst xw + snd xw])
+           (combine (placement_aux cp ws u m) (firstn (List.length (placement_aux cp ws u m)) ws)).
+Proof. exact gp_aux_placement. Qed.
+Example c07_row_legalizer_placement_nonvacuous :
+  let s := fst (push (fst (push (rl_init (-4194304) 4194304) 3 5)) 4194304 (-4194304)) in
+  Inv s /\ gp_vals s = [(I32, -4194301); (I32, 3); (I32, -4194304); (I32, -4194301)].
+Proof. split; [apply push_inv; [apply push_inv; [apply init_inv|..]|..]; vm_compute; try reflexivity; try discriminate | vm_compute; reflexivity]. Qed.
+
 Print Assumptions c07_listings_cover_every_signed_operation.
+Print Assumptions c07_cover_rule_callees.
+Print Assumptions c07_callees_in_table_or_listed.
+Print Assumptions c07_row_legalizer_placement_no_overflow.
+Print Assumptions c07_row_legalizer_placement_vals_are_the_placement.
 Print Assumptions c07_cover_rule_sound.
 Print Assumptions c07_cover_rule_every_op.
 Print Assumptions c07_cover_rule_no_stale_entry.
